@@ -88,7 +88,7 @@ var boundary = func() []float64 {
 		0.1, 0.25, 0.49999999999999994, 0.5, 0.5000000000000001, 0.75, 0.9999999999999999, 1, 1.0000000000000002, 1.4999999999999998, 1.5, 1.5000000000000002,
 		2, 2.5, 2.718281828459045, 3, 3.141592653589793, 3.5, 4, 5, 7, 8, 9, 10, 16, 100, 255, 256, 1000, 1024,
 		0.7853981633974483, 1.5707963267948966, 1.5707963267948968, 2.356194490192345, 6.283185307179586, 1e6,
-		709, 709.782712893384, 710, 745, 746,
+		709, 709.4361393031039, 709.436139303104, 709.5, 709.7, 709.782712893384, 709.7827128933841, 710, 710.4758600739439, 710.475860073944, 711, 744.4400719213812, 745, 745.1332191019411, 745.1332191019412, 746,
 		2147483647, 2147483648, 4294967295, 4294967296, 4503599627370495.5, 4503599627370496, 4503599627370497, 9007199254740991, 9007199254740992, 9007199254740994,
 		1e21, 1e22, 1e100, 1e154, 1.3407807929942597e154, 1e155, 1e300, 8.98846567431158e307, 1.7976931348623157e308,
 	}
